@@ -118,6 +118,8 @@ def run(ctx: Any, prog: Program) -> None:
     ctx.rule('C11.L3', 'each slot carries the same record field (and vector component) for the reader and the writer', floor=200)
     ctx.rule('C11.L10', 'static-prop flags: every flag bit the reader takes from the file is stored there by the writer, per StaticPropVersion', floor=12)
     ctx.rule('C11.L11', 'de-duplicated string pools are searched for the terminated string and extended by exactly the searched bytes', floor=2)
+    ctx.rule('C11.L12', 'a writer that may append to the very list it is writing (find_or_insert on its own view) iterates the live list, so appended elements are written too', floor=1)
+    ctx.rule('C11.L13', 'find_or_extend reports an existing run only when the whole sublist lies inside the list', floor=1)
     ctx.rule('C11.L4', 'static props: identical slot sequence for every StaticPropVersion, record size equals the declared size', floor=20)
     ctx.rule('C11.L5', 'isinstance chains test subclasses before their base classes', floor=1)
     ctx.rule('C11.L6', 'fixed-width string slots are length-checked before packing', floor=3)
@@ -272,6 +274,54 @@ def run(ctx: Any, prog: Program) -> None:
     rt_ = ms['_lmp_read_textures']
     ok = any(isinstance(c, ast.Call) and isinstance(c.func, ast.Attribute) and c.func.attr == 'index' and c.args and isinstance(c.args[0], ast.Constant) and c.args[0].value == b'\0' for c in walk_no_nested(rt_))
     ctx.shape('C11.L11', ok, bsp, rt_, 'the texture name reader cuts each name at the NUL terminator', func='BSP._lmp_read_textures', text='reader cuts at terminator')
+    # ---- L13 -------------------------------------------------------------------------------------------------
+    bf = prog.module('binformat')
+    foe = bf.func('find_or_extend')
+    zips = [c for c in ast.walk(foe) if isinstance(c, ast.Call) and dotted(c.func) == 'zip' and any('islice' in ast.unparse(a) or isinstance(a, ast.Subscript) for a in c.args)]
+    eqs = [c for c in ast.walk(foe) if isinstance(c, ast.Compare) and isinstance(c.ops[0], ast.Eq) and any(isinstance(x, ast.Subscript) and isinstance(x.slice, ast.Slice) for x in [c.left] + c.comparators)]
+    if not zips and not eqs:
+        ctx.shape('C11.L13', False, bf, foe, 'sublist comparison of find_or_extend not found', func='find_or_extend', text='whole sublist must fit')
+    elif eqs and not zips:
+        ctx.check('C11.L13', True, bf, eqs[0], 'list equality compares lengths as well', func='find_or_extend', text='whole sublist must fit')
+    else:
+        strict = any(k.arg == 'strict' and isinstance(k.value, ast.Constant) and k.value.value is True for z in zips for k in z.keywords)
+        bound = any(isinstance(c, ast.Compare) and 'len(item_list)' in ast.unparse(c) and 'len(items)' in ast.unparse(c) for c in ast.walk(foe))
+        ctx.check('C11.L13', strict or bound, bf, zips[0], 'the candidate run is compared with zip() against a slice of the list: at the tail the slice is shorter and zip() stops early, so a sublist of which only a prefix is present '
+                  'counts as found - the returned (index, count) then covers elements that were never added (edges / primitives / brush sides of the last records)', func='find_or_extend', text='whole sublist must fit')
+    # ---- L12 -------------------------------------------------------------------------------------------------
+    for v in views:
+        if v in NO_WIRE:
+            continue
+        wr = ms['_lmp_write_' + v.lstrip('_')]
+        if len(wr.args.args) < 2:
+            continue
+        param = wr.args.args[1].arg
+        grows = [c for c in walk_no_nested(wr) if isinstance(c, ast.Call) and dotted(c.func) in ('find_or_insert', 'find_or_extend') and c.args and dotted(c.args[0]) == param]
+        if not grows:
+            continue
+        loops = [n for n in walk_no_nested(wr) if isinstance(n, ast.For) and param in {x.id for x in ast.walk(n.iter) if isinstance(x, ast.Name)}]
+        if not loops:
+            ctx.shape('C11.L12', False, bsp, wr, f'{v}: no loop over `{param}` found', func=f'BSP._lmp_write_{v}', text=f'{v}: live iteration of {param}')
+        for lp in loops:
+            live = isinstance(lp.iter, ast.Name) or (isinstance(lp.iter, ast.Call) and dotted(lp.iter.func) == 'enumerate' and isinstance(lp.iter.args[0], ast.Name))
+            ctx.check('C11.L12', live, bsp, lp, f'`{ast.unparse(grows[0])}` hands out indexes into `{param}` and appends elements that are not listed yet; the record loop runs over `{ast.unparse(lp.iter)}`, '
+                      'a snapshot, so the appended elements are referenced by index but never written', func=f'BSP._lmp_write_{v}', text=f'{v}: live iteration of {param}')
+    # decoder: the search for the next zero marker must not be bounded by the *decoded* size (an isolated zero costs two bytes, so the
+    # encoded row can be longer than the decoded one)
+    idx_calls = [c for c in ast.walk(bsp.func('runlength_decode')) if isinstance(c, ast.Call) and isinstance(c.func, ast.Attribute) and c.func.attr in ('index', 'find') and dotted(c.func.value) == 'data']
+    if len(idx_calls) != 1:
+        ctx.shape('C11.L7', False, bsp, bsp.func('runlength_decode'), 'zero marker search not found', text='decode marker search unbounded')
+    elif len(idx_calls[0].args) >= 3:
+        lim = idx_calls[0].args[2]
+        ldefs = [n.value for n in ast.walk(bsp.func('runlength_decode')) if isinstance(n, ast.Assign) and dotted(n.targets[0]) == dotted(lim)]
+        src_l = ast.unparse(lim) + ' ' + ' '.join(ast.unparse(d) for d in ldefs)
+        if 'ret_bytes' in src_l or 'max_clusters' in src_l:
+            ctx.check('C11.L7', False, bsp, idx_calls[0], f'`{ast.unparse(idx_calls[0])}` stops searching for zero markers after the decoded row length: a row with isolated zero bytes is longer encoded than decoded, so its later markers '
+                      'are copied as literal data', text='decode marker search unbounded')
+        else:
+            ctx.shape('C11.L7', ast.unparse(lim) in ('size', 'len(data)'), bsp, idx_calls[0], 'search bound', text='decode marker search unbounded')
+    else:
+        ctx.check('C11.L7', True, bsp, idx_calls[0], 'search runs to the end of the data', text='decode marker search unbounded')
     # ---- L7 --------------------------------------------------------------------------------------------------
     enc = bsp.func('runlength_encode')
     dec = bsp.func('runlength_decode')
@@ -326,6 +376,9 @@ def run(ctx: Any, prog: Program) -> None:
 
 
 MUTANTS = [
+    {'id': 'find_or_extend_tail_prefix', 'file': 'binformat.py', 'find': "                if i + len(items) <= len(item_list) and all(", 'replace': "                if all(", 'expect': 'C11.L13'},
+    {'id': 'nodes_snapshot_loop', 'file': 'bsp.py', 'find': "        for node in nodes:\n", 'replace': "        for node in list(nodes):\n", 'expect': 'C11.L12'},
+    {'id': 'rle_decode_bounded_search', 'file': 'bsp.py', 'find': "            zero_ind = data.index(0x00, pos)\n        except ValueError:\n            # No more zeros.\n            result += view[pos:]", 'replace': "            zero_ind = data.index(0x00, pos, start + ret_bytes)\n        except ValueError:\n            # No more zeros.\n            result += view[pos:]", 'expect': 'C11.L7'},
     {'id': 'prop_fades_swapped', 'file': 'bsp.py', 'find': "                prop.min_fade,\n                prop.max_fade,\n", 'replace': "                prop.max_fade,\n                prop.min_fade,\n", 'expect': 'C11.L3'},
     {'id': 'plane_normal_yx', 'file': 'bsp.py', 'find': "                plane.normal.x, plane.normal.y, plane.normal.z,\n                plane.dist,", 'replace': "                plane.normal.y, plane.normal.x, plane.normal.z,\n                plane.dist,", 'expect': 'C11.L3'},
     {'id': 'node_area_from_plane', 'file': 'bsp.py', 'find': "                node.area_ind,", 'replace': "                node.plane.type.value,", 'expect': 'C11.L3'},
